@@ -18,6 +18,7 @@ the dictionary (the model replays it from the initial state) and the queries ask
            stably sorted by key on both sides (the enumeration order across keys is not specified)
 -/
 namespace Chewing.Driver
+namespace DictDrv  -- own namespace: helper names (parseKey, …) clash with other drivers
 open Chewing MapSpec
 
 def parseKey (s : String) : Key := if s == "-" || s.isEmpty then [] else (s.splitOn ".").map natOf
@@ -121,6 +122,9 @@ def layeredRecord (args : List String) : Option String := do
   -- `Layered::add_phrase` etc. forward to the user layer (and accept an empty phrase without doing anything)
   answers (lastResultLayered ops) (Layered.lookupFirstN layers)
     (fun _ => Layered.entries [TrieBuf.entries a, Trie.entries b, TrieBuf.entries u]) qs
+
+end DictDrv
+open Chewing MapSpec DictDrv
 
 /-- expected right-hand side of a `dict` record -/
 def dictExpected (fn : String) (args : List String) : Option String :=
